@@ -86,6 +86,7 @@ func runC07(c *Ctx) {
 	c.c07TimesReportTheErrorOfStat()
 	c.c07ArchivingInventsNoPattern()
 	c.c07SiblingComparisonsAgree()
+	c.c07DepthIsTheDepthOfThePath()
 	c.c07EmptyDirectoriesAndDirectorySizes()
 }
 
@@ -1984,4 +1985,53 @@ func (c *Ctx) c07SiblingComparisonsAgree() {
 				"the comparisons with "+g+"() in this function disagree:"+detail+" in one of these places reaching the limit is refused, in the other it is allowed — an archive whose count of entries (or size) equals the limit is extracted or refused depending on which entry comes last: a tree ending with an empty directory fails the round trip under a count limit equal to its number of entries")
 		}
 	}
+}
+
+// c07DepthIsTheDepthOfThePath (V19): "zipping and unzipping reproduces the same relative paths and kinds … (empty
+// directories) … with and without limits". The depth of an entry that is compared with the maximum depth is the depth of
+// the path it is extracted to, as FileTreeDepth measures it (and as the recursive listing does): counted on the entry's
+// name instead — the number of slashes — a directory entry, whose name ends with one, is one level deeper than it is, and
+// a tree whose deepest entry is an empty directory at the maximum depth is refused although it lies within the limit.
+func (c *Ctx) c07DepthIsTheDepthOfThePath() {
+	c.rule("V19", "the depth unzip compares with GetMaxDepth() derives from FileTreeDepth of the entry's path (plus the depth of the enclosing archives), not from a count made on the entry's name", 1)
+	f := c.fnOpt(fsPkgRel, "(*VFS).unzip")
+	if f == nil {
+		return
+	}
+	c.FuncsSeen[fname(f)] = true
+	n := 0
+	bad := ""
+	allInstrs(f, func(in ssa.Instruction) {
+		bo, ok := in.(*ssa.BinOp)
+		if !ok {
+			return
+		}
+		switch bo.Op {
+		case token.GTR, token.GEQ, token.LSS, token.LEQ:
+		default:
+			return
+		}
+		for _, pair := range [][2]ssa.Value{{bo.X, bo.Y}, {bo.Y, bo.X}} {
+			if !isLimitsGetter(pair[1], "GetMaxDepth") {
+				continue
+			}
+			if k, isK := pair[0].(*ssa.Const); isK && k.Value != nil {
+				continue // the test "is the depth limited at all"
+			}
+			n++
+			fromTree := false
+			for _, l := range sources(pair[0], deriveOpts{}) {
+				if ex, ok := l.(*ssa.Extract); ok {
+					if k, ok := ex.Tuple.(*ssa.Call); ok && strings.HasSuffix(calleeFull(&k.Call), "filesystem.FileTreeDepth") {
+						fromTree = true
+					}
+				}
+			}
+			if !fromTree {
+				bad = c.ipos(bo)
+			}
+		}
+	})
+	c.check(n > 0 && bad == "", "V19", fname(f)+"/depth-of-the-path", c.pos(f.Pos()), "the depth compared with the maximum is FileTreeDepth of the extracted path",
+		"the depth compared with the maximum at "+bad+" does not come from FileTreeDepth of the entry's path: counted on the name (its slashes), a directory entry — `a/b/dir/` — is one level deeper than the directory it names, so a tree whose deepest entry is an empty directory exactly at the maximum depth is refused as 'too large' and zipping it and unzipping the result under limits fails")
 }
